@@ -138,6 +138,78 @@ def _adjoint_of(right: ast.AST, left: ast.AST) -> bool:
     return txt in forms
 
 
+def attenuator_weight(idx):
+    """(attenuator FuncInfo, the `+=` update, weight(swap) -> sympy, symbols n, m, k, theta): the weight with which the Fock attenuator
+    maps rho[n, m] to rho[n-k, m-k], read from the step by roles (not by the names of its locals)."""
+    import sympy as sp
+    fs = idx.module(FOCKSTEPS)
+    att = fs.functions.get("attenuator")
+    if att is None:
+        raise AnalysisError("anchor vanished: fock attenuator step")
+    # roles are read from definitions, not from the names of the locals
+    stored = [y.id for x in ast.walk(att.node) if isinstance(x, ast.Assign) and len(x.targets) == 1 and isinstance(x.targets[0], ast.Attribute)
+              and x.targets[0].attr == "_density_matrix" for y in ast.walk(x.value) if isinstance(y, ast.Name)]
+    upd = [x for x in ast.walk(att.node) if isinstance(x, ast.AugAssign) and isinstance(x.target, ast.Subscript)
+           and isinstance(x.target.value, ast.Name) and x.target.value.id in stored]
+    if len(upd) != 1:
+        raise AnalysisError("C08b: the attenuator no longer has one `<new density matrix>[...] += weight` update (undecided)")
+    defs = {}
+    for x in ast.walk(att.node):
+        if isinstance(x, ast.Assign) and len(x.targets) == 1 and isinstance(x.targets[0], ast.Name):
+            defs[x.targets[0].id] = x.value
+    pair_var = k_var = None
+    for x in ast.walk(att.node):
+        if isinstance(x, ast.For) and isinstance(x.iter, ast.Call) and (dotted(x.iter.func) or "").split(".")[-1] == "operator_basis" \
+                and isinstance(x.target, ast.Tuple) and len(x.target.elts) == 2 and isinstance(x.target.elts[1], ast.Name):
+            pair_var = x.target.elts[1].id
+        if isinstance(x, ast.For) and isinstance(x.target, ast.Name) and isinstance(x.iter, ast.Call) and dotted(x.iter.func) == "range" \
+                and any(isinstance(y, ast.Call) and dotted(y.func) == "min" for y in ast.walk(x.iter)):
+            k_var = x.target.id
+    n_, m_, k_, th = sp.Symbol("n", integer=True, nonnegative=True), sp.Symbol("m", integer=True, nonnegative=True), sp.Symbol("k", integer=True, nonnegative=True), sp.Symbol("theta", real=True)
+
+    def side_of(e, depth=0):
+        """0 (ket) / 1 (bra) when e denotes an occupation number of the ket / bra of the operator-basis pair."""
+        while isinstance(e, ast.Call) and (dotted(e.func) or "").split(".")[-1] in ("copy", "array", "asarray") and e.args:
+            e = e.args[0]
+        if isinstance(e, ast.Subscript):
+            b = e.value
+            if isinstance(b, ast.Name) and b.id == pair_var and isinstance(e.slice, ast.Constant) and e.slice.value in (0, 1):
+                return e.slice.value
+            return side_of(b, depth)
+        if isinstance(e, ast.Name) and e.id in defs and depth < 5:
+            return side_of(defs[e.id], depth + 1)
+        return None
+
+    def w(e, swap, depth=0):
+        if isinstance(e, ast.Constant):
+            return sp.sympify(e.value)
+        if isinstance(e, ast.Name):
+            if e.id == k_var:
+                return k_
+            d_ = defs.get(e.id)
+            if d_ is not None and depth < 8:
+                if isinstance(d_, ast.Subscript) and isinstance(d_.slice, ast.Constant) and d_.slice.value == "theta":
+                    return th
+                if isinstance(d_, ast.Subscript) and isinstance(d_.value, ast.Attribute) and d_.value.attr == "_density_matrix":
+                    return sp.Integer(1)
+                sd = side_of(d_)
+                if sd is not None:
+                    return (m_ if sd == 0 else n_) if swap else (n_ if sd == 0 else m_)
+                return w(d_, swap, depth + 1)
+            raise AnalysisError(f"C08b: free name `{e.id}` in the attenuator weight (undecided)")
+        if isinstance(e, ast.BinOp):
+            a, b = w(e.left, swap), w(e.right, swap)
+            return {ast.Add: lambda: a + b, ast.Sub: lambda: a - b, ast.Mult: lambda: a * b, ast.Pow: lambda: a ** b, ast.Div: lambda: a / b}[type(e.op)]()
+        if isinstance(e, ast.Call):
+            f = norm(e.func).split(".")[-1]
+            args = [w(a, swap) for a in e.args]
+            table = {"cos": sp.cos, "sin": sp.sin, "tan": sp.tan, "sqrt": sp.sqrt, "comb": sp.binomial, "max": sp.Max, "min": sp.Min, "exp": sp.exp}
+            if f in table:
+                return table[f](*args)
+        raise AnalysisError(f"C08b: `{norm(e)[:50]}` is outside the fragment read for the attenuator weight (undecided)")
+
+    return att, upd[0], w, n_, m_, k_, th
+
 def clause_b(ctx: Context, idx) -> None:
     import sympy as sp
     m = idx.module(GEN)
@@ -283,73 +355,21 @@ def clause_b(ctx: Context, idx) -> None:
                     # conj(...).T / .T.conj() / np.conj(...) around it are the accepted forms; they are recorded
                     pass
     # the attenuator: weights symmetric under n <-> m
-    fs = idx.module(FOCKSTEPS)
-    att = fs.functions.get("attenuator")
-    if att is None:
-        raise AnalysisError("anchor vanished: fock attenuator step")
-    # roles are read from definitions, not from the names of the locals
-    stored = [y.id for x in ast.walk(att.node) if isinstance(x, ast.Assign) and len(x.targets) == 1 and isinstance(x.targets[0], ast.Attribute)
-              and x.targets[0].attr == "_density_matrix" for y in ast.walk(x.value) if isinstance(y, ast.Name)]
-    upd = [x for x in ast.walk(att.node) if isinstance(x, ast.AugAssign) and isinstance(x.target, ast.Subscript)
-           and isinstance(x.target.value, ast.Name) and x.target.value.id in stored]
-    if len(upd) != 1:
-        raise AnalysisError("C08b: the attenuator no longer has one `<new density matrix>[...] += weight` update (undecided)")
-    defs = {}
-    for x in ast.walk(att.node):
-        if isinstance(x, ast.Assign) and len(x.targets) == 1 and isinstance(x.targets[0], ast.Name):
-            defs[x.targets[0].id] = x.value
-    pair_var = k_var = None
-    for x in ast.walk(att.node):
-        if isinstance(x, ast.For) and isinstance(x.iter, ast.Call) and (dotted(x.iter.func) or "").split(".")[-1] == "operator_basis" \
-                and isinstance(x.target, ast.Tuple) and len(x.target.elts) == 2 and isinstance(x.target.elts[1], ast.Name):
-            pair_var = x.target.elts[1].id
-        if isinstance(x, ast.For) and isinstance(x.target, ast.Name) and isinstance(x.iter, ast.Call) and dotted(x.iter.func) == "range" \
-                and any(isinstance(y, ast.Call) and dotted(y.func) == "min" for y in ast.walk(x.iter)):
-            k_var = x.target.id
-    n_, m_, k_, th = sp.Symbol("n", integer=True, nonnegative=True), sp.Symbol("m", integer=True, nonnegative=True), sp.Symbol("k", integer=True, nonnegative=True), sp.Symbol("theta", real=True)
-
-    def side_of(e, depth=0):
-        """0 (ket) / 1 (bra) when e denotes an occupation number of the ket / bra of the operator-basis pair."""
-        while isinstance(e, ast.Call) and (dotted(e.func) or "").split(".")[-1] in ("copy", "array", "asarray") and e.args:
-            e = e.args[0]
-        if isinstance(e, ast.Subscript):
-            b = e.value
-            if isinstance(b, ast.Name) and b.id == pair_var and isinstance(e.slice, ast.Constant) and e.slice.value in (0, 1):
-                return e.slice.value
-            return side_of(b, depth)
-        if isinstance(e, ast.Name) and e.id in defs and depth < 5:
-            return side_of(defs[e.id], depth + 1)
-        return None
-
-    def w(e, swap, depth=0):
-        if isinstance(e, ast.Constant):
-            return sp.sympify(e.value)
-        if isinstance(e, ast.Name):
-            if e.id == k_var:
-                return k_
-            d_ = defs.get(e.id)
-            if d_ is not None and depth < 8:
-                if isinstance(d_, ast.Subscript) and isinstance(d_.slice, ast.Constant) and d_.slice.value == "theta":
-                    return th
-                if isinstance(d_, ast.Subscript) and isinstance(d_.value, ast.Attribute) and d_.value.attr == "_density_matrix":
-                    return sp.Integer(1)
-                sd = side_of(d_)
-                if sd is not None:
-                    return (m_ if sd == 0 else n_) if swap else (n_ if sd == 0 else m_)
-                return w(d_, swap, depth + 1)
-            raise AnalysisError(f"C08b: free name `{e.id}` in the attenuator weight (undecided)")
-        if isinstance(e, ast.BinOp):
-            a, b = w(e.left, swap), w(e.right, swap)
-            return {ast.Add: lambda: a + b, ast.Sub: lambda: a - b, ast.Mult: lambda: a * b, ast.Pow: lambda: a ** b, ast.Div: lambda: a / b}[type(e.op)]()
-        if isinstance(e, ast.Call):
-            f = norm(e.func).split(".")[-1]
-            args = [w(a, swap) for a in e.args]
-            table = {"cos": sp.cos, "sin": sp.sin, "tan": sp.tan, "sqrt": sp.sqrt, "comb": sp.binomial, "max": sp.Max, "min": sp.Min, "exp": sp.exp}
-            if f in table:
-                return table[f](*args)
-        raise AnalysisError(f"C08b: `{norm(e)[:50]}` is outside the fragment read for the attenuator weight (undecided)")
-
+    att, upd0, w, n_, m_, k_, th = attenuator_weight(idx)
+    upd = [upd0]
     w1, w2 = w(upd[0].value, False), w(upd[0].value, True)
+    # the channel the step documents: C(|n><m|) = sum_k tan(theta)^(2k) cos(theta)^(n+m) sqrt(C(n,k) C(m,k)) |n-k><m-k|
+    # (formula of the attenuator's docstring, transcribed; the docstring must still state it)
+    doc = ast.get_docstring(att.node) or ""
+    if "\\tan(\\theta)^{2k}" in doc and "\\cos(\\theta)^{n + m}" in doc and "{n \\choose k} {m \\choose k}" in doc:
+        documented = sp.tan(th) ** (2 * k_) * sp.cos(th) ** (n_ + m_) * sp.sqrt(sp.binomial(n_, k_) * sp.binomial(m_, k_))
+        same = sp.simplify(w1 - documented) == 0
+        site(att, upd[0], "attenuator-weight-as-documented", same,
+             f"the weight {w1} of |n-k><m-k| differs from the documented channel tan(theta)^(2k) cos(theta)^(n+m) sqrt(C(n,k) C(m,k)) "
+             f"(e.g. for cos(theta) < 0 and odd n + m)")
+    else:
+        # the documentation was reworded: nothing to compare the weight with here (C01d compares it with the Gaussian channel)
+        ctx.instance("C08b", f"{att.qualname}|attenuator-weight-as-documented", "not compared: the docstring does not state the formula in the transcribed form")
     ok = sp.simplify(w1 - sp.conjugate(w2)) == 0
     site(att, upd[0], "attenuator-weight-hermitian", ok, f"the weight {w1} of rho[n, m] is not the conjugate of the weight of rho[m, n]")
     ctx.require_floor("density-matrix update sites classified", n_sites, 8)
